@@ -5,6 +5,9 @@ Require Import RIO.Base RIO.TokMonad RIO.HtmlTok RIO.BodyText RIO.HtmlFilter RIO
 Close Scope N_scope.
 Open Scope nat_scope.
 
+(* N.iter k (cons b): run-length form of long bodies in harness output *)
+Definition rep (k b : N) (tl : str) : str := N.iter k (cons b) tl.
+
 Record case14 := {
   k_ctok : bool;                         (* content type absent or text/html *)
   k_enc : str;                          (* Content-Encoding value, lowercased by FilterBodyAction::new *)
